@@ -1395,7 +1395,7 @@ func runC08(c *core.Ctx) {
 		}
 	}
 	c.Res.Exhaustive = true
-	c.Note("exhaustive: all histories of length %d (async pages: %d) over the alphabets {ReadPage, SeekToRow(0, first page boundary -1/0/+1, page 5 boundary 0/+1, N-1, N, N+3)[, load index]} and {ReadRows 1/3/64, SeekToRow(0, boundary-1, boundary[, +1], N-1, N), Reset} on 22-row files", length, length-1)
+	c.Note("exhaustive: all histories of length %d (async pages: %d) over the alphabets {ReadPage, SeekToRow(0, first page boundary -1/0/+1, page 5 boundary 0/+1, N-1, N, N+3)[, load index]} and {ReadRows 1/3/64[, Reader.Read], SeekToRow(0, boundary-1, boundary[, +1], N-1, N), Reset} on 22-row files; the same on the rows of the MultiRowGroup over both row groups, and {ReadPage, SeekToRow(0, row-group boundary -1/0/+1, first page boundary of each row group, N-1, N, N+3)} on its column pages (multiPages)", length, length-1)
 
 	// ---- random histories on larger files
 	nRand := c.N(2500, 40000)
